@@ -1,3 +1,335 @@
-/-  C06/Theorems — the ledger for property C06 (every theorem here is audited).  Placeholder. -/
+/-
+  C06/Theorems — the ledger for property C06 (numbers <-> text).  Every `theorem` here is audited
+  (`#print axioms` ⊆ {propext, Classical.choice, Quot.sound}) on every run.
+
+  Shape: `Model` = otto's code over the strconv layouts (Model.lean), `Spec` = ES5 (Spec.lean),
+  theorems `¬Dev → Model = Spec`, and for every deviation region a kernel-checked witness
+  (`example … ≠ … := by decide +kernel`) that is also replayed on the real code (known_findings.jsonl).
+-/
+import OttoVerif.C06.Spec
 namespace OttoVerif.C06.Thm
+open OttoVerif.F64 OttoVerif.C06
+
+/-! ## Number → String (§9.8.1): layout -/
+
+theorem strip_noE (fuel : Nat) (s : Str) (h : ∀ c ∈ s, c ≠ 101 ∧ c ≠ 69) : stripExpZeros fuel s = s := by
+  induction fuel generalizing s with
+  | zero => simp [stripExpZeros]
+  | succ n ih =>
+    cases s with
+    | nil => simp [stripExpZeros]
+    | cons c r =>
+      have hc := h c (by simp)
+      have hr : ∀ c ∈ r, c ≠ 101 ∧ c ≠ 69 := fun c hc => h c (by simp [hc])
+      simp [stripExpZeros, hc.1, hc.2, ih r hr]
+
+/-- strip passes over a prefix without `e`/`E` -/
+theorem strip_prefix (pre rest : Str) (h : ∀ c ∈ pre, c ≠ 101 ∧ c ≠ 69) (fuel : Nat) :
+    stripExpZeros (pre.length + fuel) (pre ++ rest) = pre ++ stripExpZeros fuel rest := by
+  induction pre with
+  | nil => simp
+  | cons c r ih =>
+    have hc := h c (by simp)
+    have hr : ∀ c ∈ r, c ≠ 101 ∧ c ≠ 69 := fun c hc => h c (by simp [hc])
+    have : (c :: r).length + fuel = (r.length + fuel) + 1 := by simp; omega
+    rw [this]
+    simp [stripExpZeros, hc.1, hc.2, ih hr]
+
+/-- the fraction loop of fmtF, when the digits start at or after the point -/
+theorem frac_pos (ds : List Nat) (n : Nat) (h : n ≤ ds.length) :
+    (List.range (ds.length - n)).map (fun (i : Nat) =>
+        let j : Int := (n : Int) + (i : Int)
+        if 0 ≤ j ∧ j < (ds.length : Int) then digitCh (ds.getD j.toNat 0) else 48)
+      = (ds.drop n).map digitCh := by
+  apply List.ext_getElem
+  · simp
+  · intro i h1 h2
+    simp at h1 h2 ⊢
+    have : (n : Int) + (i : Int) < (ds.length : Int) := by omega
+    have h0 : (0 : Int) ≤ (n : Int) + (i : Int) := by omega
+    have h4 : ((n : Int) + (i : Int)).toNat = n + i := by omega
+    simp [this, h0, h4, List.getElem?_eq_getElem (by omega : n + i < ds.length)]
+
+/-- the fraction loop of fmtF, when the point is a zeros before the digits -/
+theorem frac_neg (ds : List Nat) (a : Nat) :
+    (List.range (ds.length + a)).map (fun (i : Nat) =>
+        let j : Int := -(a : Int) + (i : Int)
+        if 0 ≤ j ∧ j < (ds.length : Int) then digitCh (ds.getD j.toNat 0) else 48)
+      = List.replicate a 48 ++ ds.map digitCh := by
+  apply List.ext_getElem
+  · simp; omega
+  · intro i h1 h2
+    simp at h1 h2
+    by_cases hi : i < a
+    · have : ¬ (0 : Int) ≤ -(a : Int) + (i : Int) := by omega
+      simp [this, List.getElem_append_left, hi]
+    · have h0 : (0 : Int) ≤ -(a : Int) + (i : Int) := by omega
+      have h3 : -(a : Int) + (i : Int) < (ds.length : Int) := by omega
+      have h4 : (-(a : Int) + (i : Int)).toNat = i - a := by omega
+      simp [h0, h3, h4]
+      rw [List.getElem_append_right (by simp; omega)]
+      simp [List.getElem?_eq_getElem (by omega : i - a < ds.length)]
+
+
+theorem fixedForm (s : Bool) (ds : List Nat) (dp : Int) (hne : ds ≠ []) (h1 : -6 < dp) (h2 : dp ≤ 21) :
+    fmtF s ⟨ds, dp⟩ (if (ds.length : Int) - dp > 0 then (ds.length : Int) - dp else 0)
+      = (if s then [45] else []) ++ Spec.layout981 ds dp := by
+  have hk : 0 < ds.length := List.length_pos_iff.mpr hne
+  by_cases c6 : (ds.length : Int) ≤ dp
+  · -- step 6: digits then zeros
+    have hp : ¬ ((ds.length : Int) - dp > 0) := by omega
+    have hdp : dp > 0 := by omega
+    have hm : min ds.length dp.toNat = ds.length := by omega
+    rw [if_neg hp]
+    simp only [fmtF, Spec.layout981, hdp, if_true, hm, c6, h2, and_self]
+    simp
+  · by_cases c7 : 0 < dp
+    · -- step 7: point inside the digits
+      have hp : (ds.length : Int) - dp > 0 := by omega
+      have hm : min ds.length dp.toNat = dp.toNat := by omega
+      have hn : ((ds.length : Int) - dp).toNat = ds.length - dp.toNat := by omega
+      have hle : dp.toNat ≤ ds.length := by omega
+      have hdd : dp = (dp.toNat : Int) := by omega
+      have := frac_pos ds dp.toNat hle
+      rw [← hdd] at this
+      rw [if_pos hp]
+      simp only [fmtF, Spec.layout981, hp, if_true, hm, hn, this, c6, c7, h2, false_and, if_false, and_self]
+      simp [hdd.symm ▸ c7, List.map_take, List.map_drop]
+    · -- step 8: 0.000ddd
+      have hp : (ds.length : Int) - dp > 0 := by omega
+      have hn : ((ds.length : Int) - dp).toNat = ds.length + (-dp).toNat := by omega
+      have hdd : dp = -((-dp).toNat : Int) := by omega
+      have := frac_neg ds (-dp).toNat
+      rw [← hdd] at this
+      have c8 : dp ≤ 0 := by omega
+      rw [if_pos hp]
+      simp only [fmtF, Spec.layout981, hp, if_true, hn, this, c6, c7, c8, h1, h2, false_and, if_false, and_self]
+      simp
+
+
+set_option maxRecDepth 1000000 in
+theorem expTable : ∀ E : Fin 1000, 6 ≤ E.val → ∀ sg : Bool,
+    stripExpZeros (2 + (expDigits E.val).length) (101 :: (if sg then 45 else 43) :: expDigits E.val)
+      = 101 :: (if sg then 45 else 43) :: Spec.decimalStr E.val := by
+  decide +kernel
+
+theorem digitCh_noE (c : Nat) (h : c < 10) : digitCh c ≠ 101 ∧ digitCh c ≠ 69 := by
+  unfold digitCh; omega
+
+theorem expForm (s : Bool) (ds : List Nat) (dp : Int) (hne : ds ≠ []) (hdig : ∀ c ∈ ds, c < 10)
+    (h : dp > 21 ∨ dp ≤ -6) (hb : -999 < dp ∧ dp < 1000) :
+    stripExpZeros (fmtE s ⟨ds, dp⟩ ((ds.length : Int) - 1)).length (fmtE s ⟨ds, dp⟩ ((ds.length : Int) - 1))
+      = (if s then [45] else []) ++ Spec.layout981 ds dp := by
+  obtain ⟨c, cs, rfl⟩ := List.exists_cons_of_ne_nil hne
+  have hc : c < 10 := hdig c (by simp)
+  have hcs : ∀ x ∈ cs, x < 10 := fun x hx => hdig x (by simp [hx])
+  -- the exponent
+  have hE : (dp - 1).natAbs < 1000 := by omega
+  have hE6 : 6 ≤ (dp - 1).natAbs := by omega
+  have tab := expTable ⟨(dp - 1).natAbs, hE⟩ hE6 (decide (dp - 1 < 0))
+  simp only [decide_eq_true_eq] at tab
+  -- shape of fmtE
+  have hshape : fmtE s ⟨c :: cs, dp⟩ (((c :: cs).length : Int) - 1)
+      = ((if s then [45] else []) ++ digitCh c :: (if cs = [] then [] else 46 :: cs.map digitCh))
+        ++ (101 :: (if dp - 1 < 0 then 45 else 43) :: expDigits (dp - 1).natAbs) := by
+    cases cs with
+    | nil => simp [fmtE]
+    | cons c2 cs2 =>
+      have h1 : ((c :: c2 :: cs2).length : Int) - 1 > 0 := by simp
+      have h2 : (((c :: c2 :: cs2).length : Int) - 1).toNat = cs2.length + 1 := by simp
+      simp only [fmtE, h1, if_true, h2]
+      simp
+  rw [hshape]
+  have hpre : ∀ x ∈ ((if s then [45] else []) ++ digitCh c :: (if cs = [] then [] else 46 :: cs.map digitCh)),
+      x ≠ 101 ∧ x ≠ 69 := by
+    intro x hx
+    simp at hx
+    rcases hx with hx | hx | hx
+    · cases s <;> simp at hx; omega
+    · rw [hx]; exact digitCh_noE c hc
+    · by_cases hcs0 : cs = []
+      · simp [hcs0] at hx
+      · simp [hcs0] at hx
+        rcases hx with hx | ⟨a, ha, rfl⟩
+        · omega
+        · exact digitCh_noE a (hcs a ha)
+  rw [List.length_append]
+  have hlen : (101 :: (if dp - 1 < 0 then 45 else 43) :: expDigits (dp - 1).natAbs).length
+      = 2 + (expDigits (dp - 1).natAbs).length := by simp; omega
+  rw [hlen, strip_prefix _ _ hpre, tab]
+  -- the spec side
+  have n6 : ¬ ((((c :: cs).length : Int) ≤ dp) ∧ dp ≤ 21) := by omega
+  have n7 : ¬ (0 < dp ∧ dp ≤ 21) := by omega
+  have n8 : ¬ (-6 < dp ∧ dp ≤ 0) := by omega
+  simp only [Spec.layout981, n6, n7, n8, if_false]
+  cases cs with
+  | nil => simp
+  | cons c2 cs2 => simp
+
+
+/-- what the layout theorem assumes of strconv's shortest-digit generator for one value -/
+structure WFDec (d : Dec) : Prop where
+  nonempty : d.ds ≠ []
+  digits : ∀ c ∈ d.ds, c < 10
+  dpBound : -999 < d.dp ∧ d.dp < 1000
+
+theorem formatFloat_g_shortest (L : Lib) (s : Bool) (m : Nat) (e : Int) (hm : m ≠ 0)
+    (h : (L.shortest m e).dp > 21 ∨ (L.shortest m e).dp ≤ -6) :
+    formatFloat L (.fin s m e) .g (-1)
+      = fmtE s (L.shortest m e) (((L.shortest m e).ds.length : Int) - 1) := by
+  have hx : (L.shortest m e).dp - 1 < -4 ∨ (L.shortest m e).dp - 1 ≥ 6 := by omega
+  simp [formatFloat, formatDigits, hm, hx]
+
+theorem formatFloat_f_shortest (L : Lib) (s : Bool) (m : Nat) (e : Int) (hm : m ≠ 0) :
+    formatFloat L (.fin s m e) .f (-1)
+      = fmtF s (L.shortest m e) (if ((L.shortest m e).ds.length : Int) - (L.shortest m e).dp > 0
+          then ((L.shortest m e).ds.length : Int) - (L.shortest m e).dp else 0) := by
+  simp [formatFloat, formatDigits, hm]
+
+/-- C06.layout: for every value, every digit generator output `(ds, n)` (non-empty decimal digits,
+    |n| < 999) and every observed `log10` result on the correct side of the two thresholds,
+    otto's Number → String conversion produces exactly the §9.8.1 layout of those digits. -/
+theorem toString_layout (L : Lib) (s : Bool) (m : Nat) (e : Int) (lg : FV) (hm : m ≠ 0)
+    (hwf : WFDec (L.shortest m e)) (hside : Spec.Dev.sideOK lg (L.shortest m e).dp = true) :
+    numToString L (.fin s m e) lg
+      = (if s then [45] else []) ++ Spec.layout981 (L.shortest m e).ds (L.shortest m e).dp := by
+  have hz : isZero (.fin s m e) = false := by
+    cases m with
+    | zero => exact absurd rfl hm
+    | succ k => rfl
+  simp only [numToString, hz, floatToString]
+  simp only [Spec.Dev.sideOK, beq_iff_eq] at hside
+  by_cases hexp : (L.shortest m e).dp > 21 ∨ (L.shortest m e).dp ≤ -6
+  · have hcond : (le (ofInt 21) lg = true ∨ lt lg (ofInt (-6)) = true) := by
+      have : (le (ofInt 21) lg || lt lg (ofInt (-6))) = true := by rw [hside]; simpa using hexp
+      simpa using this
+    rw [if_pos hcond, formatFloat_g_shortest L s m e hm hexp]
+    cases hd : L.shortest m e with
+    | mk ds dp =>
+      rw [hd] at hwf hexp
+      exact expForm s ds dp hwf.nonempty hwf.digits hexp hwf.dpBound
+  · have hcond : ¬ (le (ofInt 21) lg = true ∨ lt lg (ofInt (-6)) = true) := by
+      have : (le (ofInt 21) lg || lt lg (ofInt (-6))) = false := by rw [hside]; simpa using hexp
+      simpa using this
+    rw [if_neg hcond, formatFloat_f_shortest L s m e hm]
+    cases hd : L.shortest m e with
+    | mk ds dp =>
+      rw [hd] at hwf hexp
+      exact fixedForm s ds dp hwf.nonempty (by simp at hexp; omega) (by simp at hexp; omega)
+
+/-- the same, against the specification function, with the exact digit oracle as the generator -/
+theorem toString_eq_spec (x lg : FV)
+    (h : ∀ s m e, x = .fin s m e → m ≠ 0 →
+      WFDec (Spec.shortestDigits m e) ∧ Spec.Dev.sideOK lg (Spec.shortestDigits m e).dp = true) :
+    numToString Spec.exactLib x lg = Spec.toStringNum x := by
+  cases x with
+  | nan => rfl
+  | inf s => rfl
+  | fin s m e =>
+    by_cases hm : m = 0
+    · subst hm; rfl
+    · obtain ⟨hwf, hside⟩ := h s m e rfl hm
+      have := toString_layout Spec.exactLib s m e lg hm hwf hside
+      simp only [Spec.toStringNum, hm, if_false]
+      exact this
+
+
+/-! ## non-vacuity of the layout theorem and witnesses of the deviation regions -/
+
+def fv (b : UInt64) : FV := decode b
+def L0 : Lib := Spec.exactLib
+def bytes (s : String) : Str := OttoVerif.Str.ofString s
+
+/-- the hypotheses of `toString_layout` hold for 1.5 (lg = log10 1.5), 1e21, 5e-324, 123456789012345680000 -/
+example : Spec.Dev.sideOK (fv 0x3fc68a288b60b7fc) (Spec.shortestDigits (2^52 + 2^51) (-52)).dp = true := by decide +kernel
+example : (Spec.shortestDigits (2^52 + 2^51) (-52)) = ⟨[1, 5], 1⟩ := by decide +kernel
+example : numToString L0 (fv 0x3ff8000000000000) (fv 0x3fc68a288b60b7fc) = bytes "1.5" := by decide +kernel
+example : numToString L0 (fv 0x444b1ae4d6e2ef50) (fv 0x4035000000000000) = bytes "1e+21" := by decide +kernel
+example : Spec.toStringNum (fv 0x0000000000000001) = bytes "5e-324" := by decide +kernel
+example : Spec.toStringNum (fv 0x7fefffffffffffff) = bytes "1.7976931348623157e+308" := by decide +kernel
+example : Spec.toStringNum (fv 0x3eb0c6f7a0b5ed8d) = bytes "0.000001" := by decide +kernel
+
+/-- Dev toString_threshold: 999999999999999868928 (the double below 1e21); Go's math.Log10 returns 21 -/
+example : Spec.Dev.toStr (fv 0x444b1ae4d6e2ef4f) (fv 0x4035000000000000) = ["toString_threshold"] := by decide +kernel
+example : numToString L0 (fv 0x444b1ae4d6e2ef4f) (fv 0x4035000000000000) = bytes "9.999999999999999e+20" := by decide +kernel
+example : Spec.toStringNum (fv 0x444b1ae4d6e2ef4f) = bytes "999999999999999900000" := by decide +kernel
+
+/-- Dev toFixed_tie: (0.5).toFixed(0) -/
+example : toFixed L0 (fv 0x3fe0000000000000) (fv 0xbfd34413509f79ff) (.num (fv 0)) = .str (bytes "0") := by decide +kernel
+example : Spec.toFixed (fv 0x3fe0000000000000) (.num (fv 0)) = .str (bytes "1") := by decide +kernel
+example : Spec.Dev.fixed (fv 0x3fe0000000000000) (fv 0xbfd34413509f79ff) (.num (fv 0)) = ["toFixed_tie"] := by decide +kernel
+/-- Dev toFixed_negzero: (-0).toFixed(2) -/
+example : toFixed L0 (fv 0x8000000000000000) (fv 0xfff0000000000000) (.num (fv 0x4000000000000000)) = .str (bytes "-0.00") := by decide +kernel
+example : Spec.toFixed (fv 0x8000000000000000) (.num (fv 0x4000000000000000)) = .str (bytes "0.00") := by decide +kernel
+
+/-- Dev toExponential_exp2: (1).toExponential() -/
+example : toExponential L0 (fv 0x3ff0000000000000) .undef = .str (bytes "1e+00") := by decide +kernel
+example : Spec.toExponential (fv 0x3ff0000000000000) .undef = .str (bytes "1e+0") := by decide +kernel
+/-- Dev toExponential_inf: Infinity.toExponential() -/
+example : toExponential L0 (.inf false) .undef = .str (bytes "+Inf") := by decide +kernel
+example : Spec.toExponential (.inf false) .undef = .str (bytes "Infinity") := by decide +kernel
+/-- Dev toExponential_negzero: (-0).toExponential(2) -/
+example : toExponential L0 (fv 0x8000000000000000) (.num (fv 0x4000000000000000)) = .str (bytes "-0.00e+00") := by decide +kernel
+example : Spec.toExponential (fv 0x8000000000000000) (.num (fv 0x4000000000000000)) = .str (bytes "0.00e+0") := by decide +kernel
+/-- Dev toExponential_range: (1.5).toExponential(25) -/
+example : toExponential L0 (fv 0x3ff8000000000000) (.num (fv 0x4039000000000000)) = .str (bytes "1.5000000000000000000000000e+00") := by decide +kernel
+example : Spec.toExponential (fv 0x3ff8000000000000) (.num (fv 0x4039000000000000)) = .rangeError := by decide +kernel
+/-- Dev toExponential_tie: (2.5).toExponential(0) -/
+example : toExponential L0 (fv 0x4004000000000000) (.num (fv 0)) = .str (bytes "2e+00") := by decide +kernel
+example : Spec.toExponential (fv 0x4004000000000000) (.num (fv 0)) = .str (bytes "3e+0") := by decide +kernel
+
+/-- Dev toPrecision_exp2: (123456).toPrecision(2) -/
+example : toPrecision L0 (fv 0x40fe240000000000) (fv 0x40145db55fe4b477) (.num (fv 0x4000000000000000)) = .str (bytes "1.2e+05") := by decide +kernel
+example : Spec.toPrecision (fv 0x40fe240000000000) (.num (fv 0x4000000000000000)) = .str (bytes "1.2e+5") := by decide +kernel
+/-- Dev toPrecision_inf: Infinity.toPrecision(2) -/
+example : toPrecision L0 (.inf false) (.inf false) (.num (fv 0x4000000000000000)) = .str (bytes "+Inf") := by decide +kernel
+example : Spec.toPrecision (.inf false) (.num (fv 0x4000000000000000)) = .str (bytes "Infinity") := by decide +kernel
+/-- Dev toPrecision_negzero: (-0).toPrecision(1) -/
+example : toPrecision L0 (fv 0x8000000000000000) (fv 0xfff0000000000000) (.num (fv 0x3ff0000000000000)) = .str (bytes "-0") := by decide +kernel
+example : Spec.toPrecision (fv 0x8000000000000000) (.num (fv 0x3ff0000000000000)) = .str (bytes "0") := by decide +kernel
+/-- Dev toPrecision_range: (1.5).toPrecision(30) -/
+example : toPrecision L0 (fv 0x3ff8000000000000) (fv 0x3fc68a288b60b7fc) (.num (fv 0x403e000000000000)) = .str (bytes "1.5") := by decide +kernel
+example : Spec.toPrecision (fv 0x3ff8000000000000) (.num (fv 0x403e000000000000)) = .rangeError := by decide +kernel
+/-- Dev toPrecision_small: (0.00001).toPrecision(1) -/
+example : toPrecision L0 (fv 0x3ee4f8b588e368f1) (fv 0xc014000000000000) (.num (fv 0x3ff0000000000000)) = .str (bytes "1e-05") := by decide +kernel
+example : Spec.toPrecision (fv 0x3ee4f8b588e368f1) (.num (fv 0x3ff0000000000000)) = .str (bytes "0.00001") := by decide +kernel
+/-- Dev toPrecision_tie: (2.5).toPrecision(1) -/
+example : toPrecision L0 (fv 0x4004000000000000) (fv 0x3fd977d95ec10c02) (.num (fv 0x3ff0000000000000)) = .str (bytes "2") := by decide +kernel
+example : Spec.toPrecision (fv 0x4004000000000000) (.num (fv 0x3ff0000000000000)) = .str (bytes "3") := by decide +kernel
+/-- Dev toPrecision_zeros: (1).toPrecision(3) -/
+example : toPrecision L0 (fv 0x3ff0000000000000) (fv 0) (.num (fv 0x4008000000000000)) = .str (bytes "1") := by decide +kernel
+example : Spec.toPrecision (fv 0x3ff0000000000000) (.num (fv 0x4008000000000000)) = .str (bytes "1.00") := by decide +kernel
+
+/-- Dev radix_big: (1e21).toString(7) -/
+example : numberToString L0 (fv 0x444b1ae4d6e2ef50) (fv 0x4035000000000000) (.num (fv 0x401c000000000000)) = .str (bytes "-22341010611245052052301") := by decide +kernel
+example : Spec.toStringRadix (fv 0x444b1ae4d6e2ef50) (.num (fv 0x401c000000000000)) = some (.str (bytes "5135235413265003022550266")) := by decide +kernel
+/-- Dev radix_fraction: (0.5).toString(2) -/
+example : numberToString L0 (fv 0x3fe0000000000000) (fv 0xbfd34413509f79ff) (.num (fv 0x4000000000000000)) = .str (bytes "0") := by decide +kernel
+example : Spec.toStringRadix (fv 0x3fe0000000000000) (.num (fv 0x4000000000000000)) = some (.str (bytes "0.1")) := by decide +kernel
+
+/-- Dev num_hex_big / num_hexfloat / num_inf_spelling / num_underscore -/
+example : stringToNumber (bytes "0x8000000000000000") = .nan := by decide +kernel
+example : same (Spec.stringToNumber (bytes "0x8000000000000000")) (fv 0x43e0000000000000) = true := by decide +kernel
+example : same (stringToNumber (bytes "0x1.8p1")) (fv 0x4008000000000000) = true := by decide +kernel
+example : Spec.stringToNumber (bytes "0x1.8p1") = .nan := by decide +kernel
+example : stringToNumber (bytes "infinity") = .inf false := by decide +kernel
+example : Spec.stringToNumber (bytes "infinity") = .nan := by decide +kernel
+example : same (stringToNumber (bytes "1_000")) (fv 0x408f400000000000) = true := by decide +kernel
+example : Spec.stringToNumber (bytes "1_000") = .nan := by decide +kernel
+example : Spec.Dev.num (bytes "1_000") = ["num_underscore"] := by decide +kernel
+
+/-- Dev parseFloat_goext / parseFloat_inf / parseFloat_overflow -/
+example : same (parseFloat (bytes "0x1p3")) (fv 0x4020000000000000) = true := by decide +kernel
+example : same (Spec.parseFloat (bytes "0x1p3")) zero = true := by decide +kernel
+example : parseFloat (bytes "1inf") = .nan := by decide +kernel
+example : same (Spec.parseFloat (bytes "1inf")) one = true := by decide +kernel
+example : same (parseFloat (bytes "1e999")) (fv 0x547d42aea2879f2e) = true := by decide +kernel   -- 1e99
+example : Spec.parseFloat (bytes "1e999") = .inf false := by decide +kernel
+
+/-- Dev parseInt_big / parseInt_negzero -/
+example : same (parseInt (bytes "0x8000000000000401") .undef) (fv 0x43e0000000000000) = true := by decide +kernel
+example : same (Spec.parseInt (bytes "0x8000000000000401") .undef) (fv 0x43e0000000000001) = true := by decide +kernel
+example : same (parseInt (bytes "-0") .undef) zero = true := by decide +kernel
+example : same (Spec.parseInt (bytes "-0") .undef) negZero = true := by decide +kernel
+
 end OttoVerif.C06.Thm
